@@ -57,6 +57,10 @@
 From Coq Require Import List Bool Arith Lia.
 From Omega Require Import L4.Arena L4.Kleene.
 From OmegaGen Require Import FixpointGen Gr1Gen TransducerGen.
+From Coq Require Import ZArith.
+From Coq Require String.
+From OmegaGen Require BitsGen.
+From OmegaGP Require Import CounterWidth.
 From OmegaGP Require Import TransducerModel TransducerBridge StreettTProofs StreettNB2 StreettNB4 StreettIter2
   StreettClosure1 StreettClosure2 StreettLive4.
 
@@ -76,6 +80,21 @@ Proof.
   exact (streett_generated_some nc nx ny E S EI SI holds goals moore plus_one qinit G
            fuel z yij xijk a i).
 Qed.
+
+(* The goal counter is declared by the construction with the range
+   0 .. (number of goals - 1); through the TRANSLATED width computation of
+   the declaration code (C18) its bit field has at least as many values as
+   there are goals: the hypothesis `length goals <= G` of the theorems below
+   holds for the G the real declaration produces. *)
+Theorem C02_counter_field_fits : forall goals : list bdd,
+  1 <= length goals ->
+  forall name lo hi,
+  In (name, lo, hi) (StreettGen.make_streett_transducer_declares goals) ->
+  lo = 0 /\
+  exists h, BitsGen.declared_hint 0 (Z.of_nat hi) = Some h /\ Bits.h_signed h = false /\
+    BitsGen.bitfield_limits h = Some (0, 2 ^ Bits.h_width h - 1)%Z /\
+    length goals <= Z.to_nat (2 ^ Bits.h_width h).
+Proof. exact goal_counter_fits. Qed.
 
 Section C02.
 Variables nc nx ny G : nat.
@@ -198,6 +217,7 @@ Proof.
 Qed.
 
 Print Assumptions C02_construction_is_translated.
+Print Assumptions C02_counter_field_fits.
 Print Assumptions C02_never_blocks.
 Print Assumptions C02_region_closed.
 Print Assumptions C02_reachable_states_winning.
